@@ -11,6 +11,7 @@
  *   FMLSIM_CLOCK=<base_ns>:<step_ns>[;<n>:<delta_ns>]...   scripted CLOCK_REALTIME: reading k returns
  *                            base + k*step + sum(delta_j for n_j <= k), never below 1 s after the epoch
  *   FMLSIM_JUNK=<n>          n seeded leaked allocations before main (shifts heap addresses)
+ *   FMLSIM_CPU=<s>          CPU-time rlimit (watchdog) and a 12 GiB address-space rlimit set inside the child
  *   FMLSIM_BUDGET=<n>        total intercepted read/write calls allowed; beyond it calls fail with EIO
  *   FMLSIM_PLAN=<entry>[;<entry>]...   entry = <class>:<index|*>:<action>:<arg>
  *       class  o = write on fd 1, f = write on fd >= 3, i = read on fd 0, r = read on fd >= 3
@@ -27,6 +28,7 @@
 #include <stdio.h>
 #include <stdlib.h>
 #include <string.h>
+#include <sys/resource.h>
 #include <sys/syscall.h>
 #include <sys/time.h>
 #include <sys/types.h>
@@ -85,6 +87,15 @@ static void init(void) {
     const char *s;
     if ((s = getenv("FMLSIM_SEED"))) rnd_state ^= strtoull(s, NULL, 10) * 0x2545F4914F6CDD1Dull;
     if ((s = getenv("FMLSIM_BUDGET"))) budget = strtol(s, NULL, 10);
+    if ((s = getenv("FMLSIM_CPU"))) {
+        /* the watchdog: a CPU-time limit inside the child (SIGXCPU), so the harness reads no clock */
+        struct rlimit rl;
+        rl.rlim_cur = (rlim_t)strtol(s, NULL, 10);
+        rl.rlim_max = rl.rlim_cur + 2;
+        setrlimit(RLIMIT_CPU, &rl);
+        rl.rlim_cur = rl.rlim_max = (rlim_t)12 << 30;
+        setrlimit(RLIMIT_AS, &rl);
+    }
     if ((s = getenv("FMLSIM_TRACE")) && *s) {
         int fd = open(s, O_WRONLY | O_CREAT | O_APPEND | O_CLOEXEC, 0644);
         if (fd >= 0) {
@@ -138,7 +149,13 @@ static void init(void) {
         }
         rnd_state = saved;
     }
-    trace("INIT plan=%d clock=%d\n", plan_len, have_clock);
+    {
+        /* addresses are part of the trace on purpose: with ASLR off they are identical across replays */
+        int on_stack = 0;
+        void *on_heap = malloc(1);
+        trace("INIT plan=%d clock=%d sp=%p heap=%p\n", plan_len, have_clock, (void *)&on_stack, on_heap);
+        free(on_heap);
+    }
 }
 
 __attribute__((constructor)) static void ctor(void) { init(); }
